@@ -271,10 +271,18 @@ fn inspect_files(w: &World, td: &Path, prefixed: bool) -> Value {
     json!({"files": out, "odd": odd})
 }
 
-fn inspect_ds(ds: &Path) -> Value {
+fn inspect_ds(w: &World, ds: &Path) -> Value {
     let v = |f: &str| read_json(&ds.join(f)).map(|d| d["signed"]["version"].as_u64().unwrap_or(0)).unwrap_or(0);
     let sntg = read_json(&ds.join("snapshot.json")).map(|d| d["signed"]["meta"]["targets.json"]["version"].as_u64().unwrap_or(0)).unwrap_or(0);
-    json!({"ts": v("timestamp.json"), "sn": v("snapshot.json"), "sntg": sntg, "tg": v("targets.json")})
+    // which online keys signed the stored timestamp / snapshot: 1 = the keys of root 1, 2 = the rotated ones
+    let ep = |f: &str, a: &str, b: &str| -> u64 {
+        match read_json(&ds.join(f)) {
+            None => 0,
+            Some(d) => if signed_by(&d, &w.keys[a].0) { 1 } else if signed_by(&d, &w.keys[b].0) { 2 } else { 9 },
+        }
+    };
+    json!({"ts": v("timestamp.json"), "sn": v("snapshot.json"), "sntg": sntg, "tg": v("targets.json"),
+           "epTs": ep("timestamp.json", "tsA", "tsB"), "epSn": ep("snapshot.json", "snA", "snB")})
 }
 
 /// load a pair of directories with a fresh client shipping root 1 and read every name
@@ -370,7 +378,7 @@ async fn project(w: &World) -> Value {
     cl["listing"] = json!({"clone": listing(w.p("clone")), "metadata": listing(cm.clone())});
     let dlp = w.p("dl");
     let dl = if dlp.exists() { json!({"on": true, "files": inspect_files(w, &dlp, false)}) } else { json!({"on": false}) };
-    json!({"pub": pubv, "cli": inspect_ds(&w.p("ds")), "cl": cl, "dl": dl, "top": listing(w.dir.path().to_path_buf())})
+    json!({"pub": pubv, "cli": inspect_ds(w, &w.p("ds")), "cl": cl, "dl": dl, "top": listing(w.dir.path().to_path_buf())})
 }
 
 async fn run_behaviour(tuftool: &str, c: &Value) -> Value {
@@ -463,7 +471,8 @@ async fn run_behaviour(tuftool: &str, c: &Value) -> Value {
                 r
             }
             "refresh" => {
-                let root = std::fs::read(&w.root1).unwrap();
+                // the client ships root 1, or (newest) the root the repository was transferred to
+                let root = std::fs::read(if cmd["newest"] == true { &w.cur_root } else { &w.root1 }).unwrap();
                 let ds = w.p("ds");
                 std::fs::create_dir_all(&ds).unwrap();
                 let r = guard(RepositoryLoader::new(&root, Url::parse(&rm_url).unwrap(), Url::parse(&rt_url).unwrap()).datastore(&ds).load()).await;
